@@ -196,13 +196,13 @@ var specs = map[string]*CheckSpec{
 			{Name: "c08.hello", Count: 40000},
 			{Name: "c08.fatal", Count: 100000},
 			// every byte offset x every fault kind for a few base transcripts, a stride of 16 for many more
-			// (one base transcript is ~8000 bytes: 40 000 fault points when every byte is taken)
-			{Name: "c08.crash", Count: 8, Extra: map[string]any{"every_byte": true}},
-			{Name: "c08.crash", Count: 72, Start: 8, Extra: map[string]any{"every_byte": false, "stride": 16}},
-			{Name: "c08.crashv1", Count: 8, Extra: map[string]any{"every_byte": true}},
-			{Name: "c08.crashv1", Count: 24, Start: 8, Extra: map[string]any{"every_byte": false, "stride": 16}},
+			// (one base transcript is 8 000 - 20 000 bytes, i.e. up to 100 000 fault points of ~25 000 scheduler steps each when every byte is taken)
+			{Name: "c08.crash", Count: 2, Extra: map[string]any{"every_byte": true}},
+			{Name: "c08.crash", Count: 32, Start: 2, Extra: map[string]any{"every_byte": false, "stride": 32}},
+			{Name: "c08.crashv1", Count: 1, Extra: map[string]any{"every_byte": true}},
+			{Name: "c08.crashv1", Count: 12, Start: 1, Extra: map[string]any{"every_byte": false, "stride": 32}},
 		},
-		Rule:   "each run = the real ATP client against a scripted server playing a generated v3 or v1 transcript (hello with a real self-described schema, work-done, signals, non-fatal / step-fatal / server-fatal errors, unknown message IDs) under one seeded schedule, with the server->client stream cut (EOF), failing (read error), garbled or stalled-then-ended at a byte offset and, in a fraction of runs, the client->server writes failing independently; crash batches first run the base transcript fault-free and then re-run it with each fault kind at every message boundary +-1 and a stride (thorough: every byte offset for 8 + 8 base transcripts, every 16th for 72 + 24 more) plus one-byte flips of every message ID into every other; distinct = schedule signature x fault point; non-trivial = a fault fired or a runnable goroutine was preempted",
+		Rule:   "each run = the real ATP client against a scripted server playing a generated v3 or v1 transcript (hello with a real self-described schema, work-done, signals, non-fatal / step-fatal / server-fatal errors, unknown message IDs) under one seeded schedule, with the server->client stream cut (EOF), failing (read error), garbled or stalled-then-ended at a byte offset and, in a fraction of runs, the client->server writes failing independently; crash batches first run the base transcript fault-free and then re-run it with each fault kind at every message boundary +-1 and a stride (thorough: every byte offset for 2 + 1 base transcripts, every 32nd for 32 + 12 more) plus one-byte flips of every message ID into every other; distinct = schedule signature x fault point; non-trivial = a fault fired or a runnable goroutine was preempted",
 		Real:   []string{"atp client (atp/client.go)", "schema.UnserializeSchema on the received hello", "fxamacker/cbor"},
 		Stub:   append([]string{"atp server -> scripted server (reactive transcript, canonical CBOR)"}, commonStub...),
 		Assume: []string{"premise: the server stream ends, errors or garbles; runs in which only the client's writes failed while the server stream stayed intact are excluded and counted", "a success result is legitimate iff a well-formed work-done for that run ID is present in the bytes actually delivered, as decided by the reference decoder"},
@@ -687,6 +687,11 @@ func doCheck(id, tier string) int {
 		shards := 1
 		if strings.Contains(b.Name, "crash") {
 			shards = 4 // the fault points of one base execution are spread over four workers
+			if m, ok := b.Extra.(map[string]any); ok {
+				if eb, _ := m["every_byte"].(bool); eb {
+					shards = 32 // every byte offset: tens of thousands of fault points per base
+				}
+			}
 		}
 		for c := uint64(0); c*per < count; c++ {
 			from, to := b.Start+c*per, b.Start+(c+1)*per
